@@ -54,6 +54,26 @@ def run(ctx, out):
         ops.append(f"dec {name} {hx}{x.hex()}")
         want.append(None)
         kinds.append("apdu-switch")
+    # the same at the packet reader: a packet followed, in the SAME read chunk, by another packet / by dangling bytes —
+    # what lies behind the announced length stays in the stream for the next read
+    enum = next(e for e in layout["enums"] if e["name"] == "sequences::AuthorizationResponse")
+    variants = [(i, vv["name"], layout["by_name"][vv["ty"]]) for i, vv in enumerate(enum["variants"])]
+    gg = V.Gen(layout, rng)
+
+    def reply():
+        while True:
+            i, n, st = rng.choice(variants)
+            vv = gg.struct(st, rng.choice([0.3, 0.7, 1.0]))
+            bb = V.fits(layout, st, vv)
+            if bb is not None and len(bb) < 300:
+                return bb, f"ok {i} {n} {V.show(layout, {'k': 'struct', 'name': st['name']}, vv)} n={len(bb)}"
+
+    for _ in range(200 if thorough else 40):
+        pk = [reply() for _ in range(rng.randint(2, 4))]
+        tail = bytes(rng.randrange(256) for _ in range(rng.choice([0, 0, 1, 2])))
+        ops.append(f"read {enum['name']} {C.hexs(b''.join(p for p, _ in pk) + tail)}")
+        want.append(" ; ".join([o for _, o in pk] + [f"err io:eof n={len(tail)}"]))
+        kinds.append("reader:one-chunk")
     impl, model = ctx.pair(ops)
     out.compare("dec+suffix", ops, impl, model)
     out.evaluations = len(ops)
@@ -69,6 +89,6 @@ def run(ctx, out):
             out.oracle_failures.append({"op": o, "observed": "…" + r[max(0, i - 60):i + 200], "expected": "…" + w[max(0, i - 60):i + 200], "key": o[:160],
                                         "what": f"appended bytes ({kd}) change the decoded value or are not handed back untouched"})
     out.rule = (f"{len(packets)} canonical packets of all {len(cmds)} command types x suffixes (empty, single bytes incl. all 256 for every 25th packet, valid packets, random up to 64 bytes) and junk spliced "
-                "into the APDU body behind the last container; value, remainder (= suffix) and re-encoding compared with the no-suffix result on the implementation, and implementation = model. "
+                "into the APDU body behind the last container; at the packet reader, 2-4 reply packets (+ dangling bytes) delivered in ONE chunk are returned one by one; value, remainder (= suffix) and re-encoding compared with the no-suffix result on the implementation, and implementation = model. "
                 "non-trivial = distinct (packet, suffix) inputs")
     out.samples = [ops[1][:300], {"op": ops[-1][:120], "impl": impl[-1][-120:]}]
